@@ -54,6 +54,11 @@ def options_all():
     return list(itertools.product(O_HOST, O_ORIGIN, O_SUPPRESS, O_SUBP, O_COOKIE, O_HEADER, O_CONN))
 
 
+def trace_variant(desc, tier):
+    """Every task is run a second time with trace logging enabled (enableTrace(True) is a process-wide configuration)."""
+    return True
+
+
 def tasks(tier, seed):
     ts = []
     U = urls()
